@@ -275,6 +275,45 @@ def make_harvester(xyz, c, ds, pattern=False):
     return xyz.Harvester(r, data_name=None, full_ds=ds)
 
 
+_EXPAND_ORDER = {}
+
+
+def _expand_once(xyz, cc):
+    dims, sizes, variant = cc["dimnames"], cc["sizes"], cc["variant"]
+    p = dims.index("c")
+    locs = grid(sizes)
+    base = dict(cc, sizes=[n for d, n in enumerate(sizes) if d != p], dimnames=[d for d in dims if d != "c"],
+                cells=[cc["cells"][r] for r, loc in enumerate(locs) if loc[p] == 1], layout="natural")
+    h = make_harvester(xyz, cc, build_ds(base), pattern=True)
+    h.expand_dims("c", coord_value(variant, p, 1, sizes[p]))
+    cases = [tuple(coord_value(variant, d, loc[d], sizes[d]) for d in range(len(dims))) for loc in locs if loc[p] == 2]
+    h.harvest_cases(cases, fn_args=tuple(dims), verbosity=0)
+    return h.full_ds
+
+
+def build_via_expand(xyz, c):
+    """Realise a three-dimensional pattern the way a user grows a dataset: a two-dimensional dataset in a
+    real Harvester, expand_dims('c', v1), then harvest_cases at c = v2 with a function that returns the
+    pattern's values.  Which position 'c' takes in the grown dataset's dimension order is read off the
+    result (and the pattern laid out accordingly).  Returns (dataset, case) or (None, reason)."""
+    import numpy as np
+    key = (c["nv"], tuple(c["intvars"]))
+    guess = list(_EXPAND_ORDER.get(key, ["a", "b", "c"]))
+    for _ in range(2):
+        cc = dict(c, dimnames=list(guess), layout="natural")
+        ds = _expand_once(xyz, cc)
+        actual = [d for d in ds.dims if d != "t"]
+        if actual == guess:
+            for d, name in enumerate(guess):
+                want = [coord_value(cc["variant"], d, i, cc["sizes"][d]) for i in range(1, cc["sizes"][d] + 1)]
+                if np.asarray(ds[name].values).tolist() != want:
+                    return None, "coordinate %s stored as %r" % (name, ds[name].values.tolist())
+            _EXPAND_ORDER[key] = guess
+            return ds, cc
+        guess = actual
+    return None, "dimension order not stable"
+
+
 def check_one(c):
     """Replay one emitted case on the real functions.  Returns a list of (category, message)."""
     xyz = common.use_repo()
@@ -282,8 +321,19 @@ def check_one(c):
     bad = []
     sizes, method = c["sizes"], c["method"]
     nd = len(sizes)
-    dims = DIMS[:nd]
-    ds = build_ds(c)
+    ds = None
+    if c.get("route") == "expand":
+        try:
+            ds, cc = build_via_expand(xyz, c)
+        except Exception as e:  # noqa   (growing the dataset is not C13's subject: fall back, and say so)
+            ds, cc = None, "%s: %s" % (type(e).__name__, str(e)[:120])
+        if ds is None:
+            bad.append(("note", "Harvester.expand_dims route not used (%s); pattern built directly" % cc))
+        else:
+            c = cc
+    if ds is None:
+        ds = build_ds(c)
+    dims = dims_of(c)
     ig = ignore_arg(c)
     if c["mode"] == "find":
         want = [list(l) for l in c["missing"]]
@@ -334,7 +384,7 @@ def check_one(c):
                                 % (len(cases), [tuple(x) for x in again])))
     else:
         want = [list(s) for s in c["expect"]]
-        combos = {DIMS[cb["dim"] - 1]: [coord_value(c["variant"], cb["dim"] - 1, i, sizes[cb["dim"] - 1]) for i in cb["vals"]]
+        combos = {dims[cb["dim"] - 1]: [coord_value(c["variant"], cb["dim"] - 1, i, sizes[cb["dim"] - 1]) for i in cb["vals"]]
                   for cb in c["combos"]}
         cases = [setting_dict(c, s) for s in c["cases"]]
         objs = [("Dataset", ds)] + ([("DataArray", ds[VARS[0]])] if c["nv"] == 1 else [])
@@ -357,6 +407,10 @@ def check_one(c):
                 bad.append((what, "parse_into_cases(%s, method=%s, %r) -> %r, expected %r"
                             % (oname, method, kw, new, [setting_dict(c, s) for s in want])))
     return bad
+
+
+def _viol(bad):
+    return [b for b in bad if b[0] != "note"]
 
 
 def _chk(c):
@@ -387,7 +441,9 @@ def run(rep):
     rep.assumptions = [
         "datasets are bounded: 1-4 parameter dimensions of size <= 2 (<= 3 for 1-2 dimensions), 1-3 float variables, "
         "internal dimension of size 2; the 16-location shape is model-checked only",
-        "coordinate flavours (int unsorted / float / str / mixed), variable memory layout, Dataset vs DataArray and the "
+        "coordinate flavours (int unsorted / float / str / mixed), the stored dimension order of the variables (natural / "
+        "every variable permuted against the dataset's order / variables 2.. reversed), growth of the three-dimensional "
+        "patterns by a real Harvester (expand_dims then harvest_cases, ascending coordinates), Dataset vs DataArray and the "
         "spelling of ignore_dims are rotated over the emitted cases by the harness, not enumerated by TLC",
         "the harvest step of the find->harvest->find loop uses overwrite=True under the isfinite criterion (a reported "
         "cell may hold +-inf, which the default merge policy treats as conflicting data - that is C05's subject)",
@@ -439,24 +495,36 @@ def run(rep):
         for fl in flavours:
             cc = dict(c)
             cc["variant"] = fl
-            cc["layout"] = "transposed" if (n % 3 == 2) else "natural"
+            cc["layout"] = ["natural", "permuted", "transposed"][n % 3]
+            if c["sizes"] == [2, 2, 2] and c["mode"] == "find" and n % 2 == 0:
+                # grown by a real Harvester: 2-d dataset -> expand_dims('c') -> harvest_cases at the new value
+                cc["route"] = "expand"
+                cc["variant"] = SORTED_VARIANTS[n % len(SORTED_VARIANTS)]
+                cc["layout"] = "natural"
             final.append(cc)
     # non-vacuity of the emitted set
     nfind = [c for c in final if c["mode"] == "find"]
     if not any(c["npartial"] > 0 and c["missing"] for c in nfind) or not any(not c["missing"] for c in nfind) \
             or not any(c["mode"] == "parse" and any(max(s) > max(c["sizes"]) for s in c["expect"]) for c in final):
         raise tlc.TLCError("vacuous case set: no partial-null pattern / no empty result / no absent coordinate among the cases")
+    nperm = sum(1 for c in final if c["layout"] == "permuted" and len(c["sizes"]) >= 2 and 0 < len(c.get("missing", c.get("expect"))) < len(c["cells"]))
+    nroute = sum(1 for c in final if c.get("route") == "expand")
+    if nperm < 50 or nroute < 20:
+        raise tlc.TLCError("vacuous case set: %d permuted-layout cases with a proper sub-list, %d Harvester-grown cases" % (nperm, nroute))
+    rep.extra["permuted_layout_cases"] = nperm
+    rep.extra["harvester_grown_cases"] = nroute
     # binding self-test: a corrupted expectation must be rejected by the replay
     probe = next(c for c in final if c["mode"] == "find" and c["missing"] and c["npartial"] > 0)
     corrupted = dict(probe, missing=probe["missing"][1:])
-    if check_one(probe) or not check_one(corrupted):
-        if check_one(probe):
+    if _viol(check_one(probe)) or not _viol(check_one(corrupted)):
+        if _viol(check_one(probe)):
             rep.note("binding self-test skipped: the probe case itself fails on this tree")
         else:
             raise RuntimeError("binding self-test failed: replay accepts a case whose expected list lost an entry")
     else:
         rep.note("binding self-test: a case with one expected location removed is rejected by the replay")
     res = common.pmap(_chk, final)
+    notes = {}
     for c, bad, err in res:
         if err:
             raise RuntimeError("harness failure on case %r: %s" % ({k: c[k] for k in ("shape", "idx", "mode")}, err))
@@ -465,11 +533,16 @@ def run(rep):
         rep.add_case([c["shape"], c["cells"], c["method"], c["mode"], c.get("kind"), c["variant"], c["layout"]],
                      nontrivial=nontrivial, sample=c if (len(rep.samples) < 3 and c["npartial"] > 0) else None)
         for what, msg in bad:
-            rep.add_violation(c, msg, key=dict(mode=c["mode"], what=what, method=c["method"]))
+            if what == "note":
+                notes[msg] = notes.get(msg, 0) + 1
+            else:
+                rep.add_violation(c, msg, key=dict(mode=c["mode"], what=what, method=c["method"]))
+    for msg, k in sorted(notes.items()):
+        rep.note("%s [%d cases]" % (msg, k))
     rep.exhaustive = thorough
     rep.extra["replayed_cases"] = len(final)
 
 
 def replay(rep, case):
-    for what, msg in check_one(case):
+    for what, msg in _viol(check_one(case)):
         rep.add_violation(case, msg, key=dict(mode=case["mode"], what=what, method=case["method"]))
